@@ -247,8 +247,17 @@ def gen_case(rng):
         c["kinds"] = ("list", "list", "array", "tuple")
     elif op in ("rounded", "precision"):
         c["digits"] = rng.choice([None, 0, 1, 1, 2, 3, -1, -2, 5])
-        c["x"] = [v if rng.random() < 0.6 else round(rng.uniform(-500, 500), rng.randint(0, 4)) + rng.choice([0, 0.05, 0.005, 0.5, 5.0])
-                  for v in gvec(rng, n)]
+        d = c["digits"] or 0
+        xs = []
+        for v in gvec(rng, n):
+            k = rng.random()
+            if k < 0.5:
+                xs.append(v)
+            elif k < 0.75:                                   # exact ties of numpy.round at this number of digits
+                xs.append(tie_value(rng, d))
+            else:
+                xs.append(round(rng.uniform(-500, 500), rng.randint(0, 4)) + rng.choice([0, 0.05, 0.005, 0.5, 5.0]))
+        c["x"] = xs
         c["index"], c["itag"] = gindex(rng, n)
         c["kinds"] = ("list", "list", "array", "tuple")
     elif op == "bounds":
@@ -304,6 +313,10 @@ def gen_case(rng):
         index = [rng.randint(-n - 1, n + 2) if rng.random() < 0.3 else (rng.randrange(n) if n else 0) for _ in range(m)]
         if rng.random() < 0.7:
             index = list(dict.fromkeys(index))
+        elif n and index and rng.random() < 0.5:             # the same slot addressed twice, once from the end
+            i = rng.choice(index)
+            if 0 <= i < n:
+                index.insert(rng.randrange(len(index) + 1), i - n)
         c["index"] = index
         if rng.random() < 0.55:
             c["target"] = gval(rng)
@@ -383,9 +396,12 @@ def gen_case(rng):
     elif op == "masked":
         m = rng.randint(0, 4)
         tot = n + m
-        keys = rng.sample(range(tot + 1), m) if tot + 1 >= m else []
+        keys = rng.sample(range(tot + 1), m) if tot + 1 >= m else []       # any listing order; `tot` is one beyond
+        if keys and rng.random() < 0.25:
+            keys[rng.randrange(m)] = tot - 1                 # the largest admissible key
+            keys = list(dict.fromkeys(keys))
         if rng.random() < 0.1 and keys:
-            keys[0] = rng.choice([-1, tot + 2])
+            keys[0] = rng.choice([-1, tot + 2, -tot - 1])
         c["mask"] = {k: gval(rng) for k in keys}
         c["x"] = gvec(rng, n)
         c["kinds"] = ("list", "list", "array", "tuple")
@@ -407,6 +423,13 @@ def gen_case(rng):
                 t = (max(x) - min(x)) * rng.choice([0.5, 2.0, 0.25, 1.5, 4.0, 1.0, 0.75])
             if n > 1 and rng.random() < 0.12:
                 x = [x[0]] * n                                # zero spread
+                if rng.random() < 0.4:
+                    t = 0.0
+            k = rng.random()
+            if k < 0.08:
+                t = -t                                        # a negative target cannot be met: |target| is
+            elif k < 0.14:
+                t = 0.0
         elif op == "norm":
             t = rng.choice([1.0, 1.0, 2.0, 0.5, 0.0, -1.0, t])
             if n and rng.random() < 0.12:
@@ -423,11 +446,31 @@ def gen_case(rng):
                 x = [x[0]] * n
                 t = rng.choice([t, 0.0])
             c["std"] = rng.random() < 0.3
+            c["sneg"] = c["std"] and rng.random() < 0.3       # with_std(-s) == with_std(s)
+            k = rng.random()
+            if k < 0.06 and not c["std"]:
+                t = -t                                        # negative variance: sqrt gives NaN
+            elif k < 0.12:
+                t = 0.0
         c["target"] = t
         c["x"] = x
         c["kinds"] = ("list", "list", "array", "tuple")
     c["xin"], c["kind"] = None, None
     return c
+
+
+def tie_value(rng, d):
+    """a float that numpy.round(., d) sees as an exact tie: x*10^d (d>0), x (d=0), x/10^-d (d<0) is n + 1/2 in floats"""
+    m = rng.randint(-40, 40)
+    if d <= 0:
+        return (m + 0.5) * 10.0 ** (-d)
+    p = 10.0 ** d
+    for _ in range(8):
+        v = (m + 0.5) / p
+        if v * p == m + 0.5:
+            return v
+        m += 1
+    return (m + 0.5) / p
 
 
 def acyclic(pairs):
@@ -514,6 +557,14 @@ def run_impl(c, rng):
         with Patch(choice=choice, uniform=uniform):
             r = call(lambda v: C.bounded(v, c["ivs"], c["index"], clip, nearest))
         extra["picks"] = picks; extra["draws"] = draws
+
+        def again(v):                                        # re-callable with its own reproducible draws (aliasing monitor)
+            r2 = _random.Random(20260928)
+            ch = lambda a, size=None: np.array([r2.randrange(a) for _ in range(size[0])], dtype=int)
+            un = lambda lo, hi, size=None: np.array([r2.random() for _ in range(size[0])])
+            with Patch(choice=ch, uniform=un):
+                return C.bounded(v, c["ivs"], c["index"], clip, nearest)
+        extra["g"] = again
         return r, extra
     elif op == "unique":
         rec = []
@@ -530,6 +581,11 @@ def run_impl(c, rng):
             else:
                 r = call(C.impose_unique(list(c["full"]))(ident))
         extra["new"] = rec[0] if rec else []
+
+        def again(v):
+            with Patch(shuffle=lambda l: l.sort()):
+                return C.unique(v, list(c["full"])) if c["via"] == "unique" else C.impose_unique(list(c["full"]))(ident)(v)
+        extra["g"] = again
         return r, extra
     elif op == "sorting":
         dec = C.sorting(ascending=c["asc"], outer=c["outer"], index=c["index"])
@@ -557,9 +613,12 @@ def run_impl(c, rng):
     elif op == "norm":
         dec = C.normalized(c["target"])
     elif op == "var":
-        dec = C.with_std(math.sqrt(c["target"])) if c.get("std") else C.with_variance(c["target"])
         if c.get("std"):
-            extra["v"] = math.sqrt(c["target"]) ** 2
+            sd = -math.sqrt(c["target"]) if c.get("sneg") else math.sqrt(c["target"])
+            dec = C.with_std(sd)
+            extra["v"] = sd ** 2
+        else:
+            dec = C.with_variance(c["target"])
     f = dec(ident)
     extra["f"] = f
     return call(f), extra
@@ -618,7 +677,7 @@ def request_line(c, extra):
     raise AssertionError(op)
 
 
-def spec_sexp(c):
+def spec_entries(c):
     """the normalised {index: intervals} dict of impose_bounds (constraints.py l.1306-1330), from the configuration"""
     index = c["index"]
     il = idx_list(index)
@@ -634,6 +693,11 @@ def spec_sexp(c):
             ent = list(d.items())
         else:
             ent = [(i, d[i]) for i in dict.fromkeys(il) if i in d]
+    return ent
+
+
+def spec_sexp(c):
+    ent = spec_entries(c)
     return "(" + " ".join("(%s %s)" % ("none" if i is None else str(i), ivs_sexp(v)) for i, v in ent) + ")"
 
 
@@ -716,6 +780,16 @@ def monitor(c, res, extra):
             out.append((key, "%s did not return within %.0f s on x=%r (configuration %r)" % (op, c.get("alarm", 10.0), x, c.get("mask"))))
             return out
         # an exception: only judged where the documentation promises a value
+        if op == "masked" and res[1] == "key":
+            m = c["mask"]
+            if all(0 <= k <= n + len(m) - 1 for k in m):
+                out.append(("masked/keyerror-guard", "masked(%r) raised KeyError on an input of length %d although every key is in [0, %d]" % (m, n, n + len(m) - 1)))
+        if op == "at":
+            idx = c["index"]
+            kept = [i for i in idx if i < n]
+            if all(-n <= i for i in kept) and ("target" in c or len(c["targets"]) in (1, len(kept))):
+                out.append(("impose_at/raises-on-valid-input", "impose_at(%r, %r) raised %s on an input of length %d: indices beyond the length "
+                            "are to be skipped, every other index is in range and the targets fit" % (idx, c.get("target", c.get("targets")), res[1], n)))
         if op == "at" and "targets" in c and res[1] == "value":
             idx = c["index"]
             kept = [i for i in idx if i < n]
@@ -759,6 +833,8 @@ def monitor(c, res, extra):
                 bad("discrete/nearest", "entry %d = %r is not the nearest sample to %r" % (k, y[k], x[k])); break
             if any(v == x[k] for v in s) and y[k] != x[k]:
                 bad("discrete/fix-conform", "entry %d = %r was a sample but became %r" % (k, x[k], y[k])); break
+            if isfin(x[k]) and any(abs(v - x[k]) == abs(y[k] - x[k]) and v < y[k] for v in s):
+                bad("discrete/tie-lowest", "entry %d: %r is as near to a lower sample as to the chosen %r" % (k, x[k], y[k])); break
         idem(extra["f"], "discrete/idempotent")
     elif op == "integers":
         sel = sel_mask(n, c["index"])
@@ -787,6 +863,14 @@ def monitor(c, res, extra):
                 bad(op + "/in-target", "entry %d: %r is farther than half a unit (digits=%d) from %r" % (k, y[k], d, x[k])); break
             if round(y[k], d) != y[k]:
                 bad(op + "/on-grid", "entry %d: %r is not a %d-digit number" % (k, y[k], d)); break
+            p10 = 10.0 ** abs(d)
+            q = x[k] * p10 if d > 0 else (x[k] / p10 if d < 0 else x[k])     # the number numpy.round hands to rint
+            if isfin(q) and q - math.floor(q) == 0.5:
+                fl_ = math.floor(q)
+                even = fl_ if fl_ % 2 == 0 else fl_ + 1.0
+                want = even / p10 if d > 0 else (even * p10 if d < 0 else even)
+                if y[k] != want:
+                    bad(op + "/half-even", "entry %d: the tie %r (digits=%d) went to %r, the even neighbour is %r" % (k, x[k], d, y[k], want)); break
         idem(extra["f"], op + "/idempotent")
     elif op in ("bounds", "bounded"):
         if op == "bounds" and c["form"] != "plain":
@@ -877,13 +961,16 @@ def monitor(c, res, extra):
         idx = c["index"]
         kept = [i for i in idx if i < n]
         ws = [wrap(n, i) for i in kept]
-        if len(set(ws)) != len(ws):
-            return out
         frame(set(ws), "impose_at/frame")
         tg = [c["target"]] * len(kept) if "target" in c else (c["targets"] * len(kept) if len(c["targets"]) == 1 else c["targets"])
-        for r, w in enumerate(ws):
-            if r < len(tg) and not same_float(y[w], tg[r]):
-                bad("impose_at/in-target", "entry %d is %r, target %r" % (w, y[w], tg[r])); break
+        if len(tg) == len(ws):
+            last = {}
+            for r, w in enumerate(ws):
+                last[w] = tg[r]                              # a slot addressed twice keeps the LAST value listed for it
+            for w, v in last.items():
+                if not same_float(y[w], v):
+                    key = "impose_at/in-target" if ws.count(w) == 1 else "impose_at/last-write-wins"
+                    bad(key, "entry %d is %r, target %r" % (w, y[w], v)); break
         idem(extra["f"], "impose_at/idempotent")
     elif op == "as":
         pairs = c["mask"]; off = c["offset"] or 0.0
@@ -978,6 +1065,8 @@ def monitor(c, res, extra):
             idem(extra["f"], "suppressed/idempotent")
     elif op == "masked":
         m = c["mask"]
+        if not all(0 <= k <= n + len(m) - 1 for k in m):
+            bad("masked/keyerror-guard", "a key outside [0, %d] was accepted" % (n + len(m) - 1)); return out
         if len(y) != n + len(m):
             bad("masked/length", "result length %d, expected %d" % (len(y), n + len(m))); return out
         for k, v in m.items():
@@ -992,11 +1081,24 @@ def monitor(c, res, extra):
                 bad("with_mean/in-target", "mean is %r, target %r" % (sum(y) / n, c["target"]))
             idem(extra["f"], "with_mean/idempotent", exact=False)    # field-true; rounding is outside the property (DESIGN 3)
     elif op == "spread":
+        t = c["target"]
         if n > 1 and max(x) != min(x) and all(isfin(v) for v in y):
-            if not close(max(y) - min(y), c["target"]):
-                bad("with_spread/in-target", "spread is %r, target %r" % (max(y) - min(y), c["target"]))
-            if c["target"] > 1e-6:
+            # a spread is never negative: for a negative target the code delivers |target| (theorem withSpread_in_target)
+            if not close(max(y) - min(y), abs(t)):
+                bad("with_spread/in-target" if t >= 0 else "with_spread/negative-target", "spread is %r, target %r" % (max(y) - min(y), t))
+            mu, mu0 = sum(y) / n, sum(x) / n
+            if not close(mu, mu0, 1e-6, 1e-7):
+                bad("with_spread/mean-preserved", "mean moved from %r to %r" % (mu0, mu))
+            if t > 1e-6:
                 idem(extra["f"], "with_spread/idempotent", exact=False)    # field-true; rounding is outside the property (DESIGN 3)
+        elif n >= 1 and max(x) == min(x) and isfin(x[0]):
+            # degenerate: a constant vector (length one included) has spread 0 - returned as it is for target 0, else
+            # the spread cannot be produced by scaling and the code answers with NaN (never with finite numbers)
+            if abs(t) <= 1e-18:
+                if not same_vec(y, x):
+                    bad("with_spread/fix-conform", "constant input, target 0, but the vector changed")
+            elif any(isfin(v) for v in y):
+                bad("with_spread/constant-input", "constant input cannot get spread %r, yet finite numbers came back" % (t,))
     elif op == "norm":
         s = sum(x)
         if n and abs(s) > 1e-6 * sum(abs(v) for v in x) and all(isfin(v) for v in y):
@@ -1006,7 +1108,10 @@ def monitor(c, res, extra):
                 idem(extra["f"], "normalized/idempotent", exact=False)    # field-true; rounding is outside the property (DESIGN 3)
     elif op == "var":
         t = extra.get("v", c["target"])
-        if n > 1 and all(isfin(v) for v in y) and max(x) != min(x):
+        if n > 1 and max(x) != min(x) and t < 0:
+            if any(isfin(v) for v in y):                     # a negative variance cannot be met: sqrt gives NaN
+                bad("with_variance/negative-target", "negative target %r, yet finite numbers came back" % (t,))
+        elif n > 1 and all(isfin(v) for v in y) and max(x) != min(x):
             mu = sum(y) / n
             var = sum((v - mu) ** 2 for v in y) / n
             if not close(var, t, 1e-6, 1e-9):
@@ -1014,7 +1119,83 @@ def monitor(c, res, extra):
             mu0 = sum(x) / n
             if not close(mu, mu0, 1e-6, 1e-7):
                 bad("with_variance/mean-preserved", "mean moved from %r to %r" % (mu0, mu))
+            if t > 1e-6:
+                idem(extra["f"], "with_variance/idempotent", exact=False)
+        elif n >= 1 and c.get("exact") and max(x) == min(x) and isfin(x[0]):
+            # degenerate (exactness regime: the variance of a constant dyadic vector is exactly 0): target 0 returns the
+            # vector, any other target cannot be produced by scaling and the code answers with NaN
+            if t == 0:
+                if not same_vec(y, x):
+                    bad("with_variance/fix-conform", "constant input, target 0, but the vector changed")
+            elif any(isfin(v) for v in y):
+                bad("with_variance/constant-input", "constant input cannot get variance %r, yet finite numbers came back" % (t,))
     return out
+
+
+# ------------------------------------------------------------------ aliasing monitor (storage, stale state)
+def rewrites_its_argument(c):
+    """the decorators whose documented job is to rewrite the buffer they are handed: tools.partial / tools.synchronized
+    assign into `x` and pass it on; sorting / monotonic with outer=True and an index rewrite the OUTPUT of the decorated
+    function in place (with the identity that is the argument)"""
+    op = c["op"]
+    if op in ("partial", "sync"):
+        return True
+    return op in ("sorting", "monotonic") and c.get("outer") and c.get("index") is not None
+
+
+def alias_monitor(c, res, extra):
+    """call the decorated identity twice on the SAME buffer, refilled in between:
+      argument-modified      - the caller's argument is bit-for-bit what it was before the call;
+      result-shares-storage  - editing the argument afterwards does not change the earlier result;
+      earlier-result-changed - neither does a second call;
+      stale-state            - the second call returns what a call on a fresh buffer with the same values returns.
+    Decorators that rewrite their argument by design are exempt from the first three, a result that IS the argument
+    object is accepted only from the statistics decorators when nothing had to be done (their guard returns `x`)."""
+    import numpy as np
+    out = []
+    f = extra.get("g") or extra.get("f")
+    op = c["op"]; x = c["x"]
+    if f is None or isinstance(res, tuple) or c["kind"] not in ("list", "array") or not x:
+        return out, None
+    mk = (lambda v: np.array(v, dtype=float)) if c["kind"] == "array" else (lambda v: list(v))
+    buf = mk(x)
+    try:
+        y1 = f(buf)
+    except Exception:
+        return out, None
+    name = {"bounds": "impose_bounds", "at": "impose_at", "as": "impose_as", "sync": "synchronized", "suppress": "suppressed",
+            "mean": "with_mean", "spread": "with_spread", "norm": "normalized", "var": "with_variance"}.get(op, op)
+    exempt = rewrites_its_argument(c)
+    same_obj = y1 is buf
+    if not exempt and not same_vec(tolist(buf), x):
+        out.append((name + "/alias/argument-modified", "the caller's argument %r was changed to %r by the call" % (x, tolist(buf))))
+        return out, "mutated"
+    snap1 = tolist(y1)
+    x2 = list(reversed(x)) if op == "unique" else [v + 1.0 if isfin(v) else v for v in reversed(x)]
+    for i in range(len(x2)):
+        buf[i] = x2[i]
+    if exempt:
+        return out, "exempt"
+    if same_obj:
+        if op in ("mean", "spread", "norm", "var") and same_vec(snap1, x):
+            return out, "returned-argument"                  # the guard hands back what the decorated identity returned
+        if op == "bounds" and not spec_entries(c) and same_vec(snap1, x):
+            return out, "returned-argument"                  # no bound left after filtering by index: the identity gets `x`
+        out.append((name + "/alias/result-shares-storage", "the result IS the argument object (input %r)" % (x,)))
+        return out, "aliased"
+    if not same_vec(tolist(y1), snap1):
+        out.append((name + "/alias/result-shares-storage", "the result %r changed to %r when the argument was edited afterwards" % (snap1, tolist(y1))))
+        return out, "aliased"
+    try:
+        y2 = tolist(f(buf))
+        fresh = tolist(f(mk(x2)))
+    except Exception:
+        return out, "second-call-raises"
+    if not same_vec(tolist(y1), snap1):
+        out.append((name + "/alias/earlier-result-changed", "the first result %r changed to %r during a second call" % (snap1, tolist(y1))))
+    elif not same_vec(y2, fresh):
+        out.append((name + "/alias/stale-state", "second call on the refilled buffer %r gave %r, a fresh call %r" % (x2, y2, fresh)))
+    return out, "checked"
 
 
 def nontrivial(c, res):
@@ -1023,6 +1204,54 @@ def nontrivial(c, res):
     if isinstance(res, tuple):
         return True
     return len(c["x"]) > 0 and (len(res) != len(c["x"]) or not same_vec(res, c["x"]))
+
+
+def clause_tags(c, res):
+    """which of the newly proved clauses this case actually exercises (coverage of the tie / degenerate / list paths)"""
+    tags = []
+    op = c["op"]; x = c["x"]; n = len(x)
+    ok = not isinstance(res, tuple)
+    if op == "discrete" and ok:
+        s = c["samples"]
+        sel = sel_mask(n, c["index"])
+        if any(isfin(x[k]) and len(set(v for v in s if abs(v - x[k]) == min(abs(w - x[k]) for w in s))) > 1 for k in sel if s):
+            tags.append("discrete-tie")
+    elif op == "integers" and ok:
+        if any(isfin(x[k]) and x[k] - math.floor(x[k]) == 0.5 for k in sel_mask(n, c["index"])):
+            tags.append("integers-tie")
+    elif op in ("rounded", "precision") and ok:
+        d = c["digits"] or 0
+        p10 = 10.0 ** abs(d)
+        for k in sel_mask(n, c["index"]):
+            q = x[k] * p10 if d > 0 else (x[k] / p10 if d < 0 else x[k])
+            if isfin(q) and abs(q) < 1e15 and q - math.floor(q) == 0.5:
+                tags.append("rounded-tie:digits%s" % ("+" if d > 0 else ("-" if d < 0 else "0"))); break
+    elif op == "at":
+        if "targets" in c:
+            kept = [i for i in c["index"] if i < n]
+            ws = [wrap(n, i) for i in kept]
+            tags.append("at-list:" + ("raises" if not ok else ("repeated-slot" if len(set(ws)) != len(ws) else
+                                                               ("broadcast" if len(c["targets"]) == 1 and len(kept) != 1 else "one-per-index"))))
+    elif op == "masked":
+        m = c["mask"]
+        ks = list(m)
+        tags.append("masked:" + ("keyerror" if not ok else ("empty" if not ks else ("sorted-listing" if ks == sorted(ks) else "unsorted-listing"))))
+        if ok and ks and max(ks) == n + len(m) - 1:
+            tags.append("masked:largest-admissible-key")
+    elif op == "spread" and ok and n:
+        t = c["target"]
+        tags.append("spread:" + ("constant" if max(x) == min(x) else ("negative-target" if t < 0 else ("target-0" if t == 0 else "regular"))))
+    elif op == "var" and ok and n:
+        t = c["target"]
+        tags.append(("std:" if c.get("std") else "var:") + ("constant" if max(x) == min(x) else ("negative-target" if t < 0 else ("target-0" if t == 0 else ("negative-std" if c.get("sneg") else "regular")))))
+    elif op in ("sorting", "monotonic") and ok:
+        il = idx_list(c["index"])
+        if il is not None and len(il) > 1 and n > 1:
+            tags.append(op + "-selected-subsequence")
+    elif op == "bounded" and ok:
+        moved = sum(1 for a, b in zip(x, res) if not same_float(a, b))
+        tags.append("bounded:%s:%s" % (c["mode"], "redrawn" if moved else "untouched"))
+    return tags
 
 
 # ------------------------------------------------------------------ shard
@@ -1058,6 +1287,13 @@ def judge(recs, lines, replies, findings, hist, samples):
             findings.append(Finding("correspondence", "%s/diverges" % op, div, case))
         for key, what in monitor(c, res, extra):
             findings.append(Finding("monitor", key, what, case))
+        afind, atag = alias_monitor(c, res, extra)
+        for key, what in afind:
+            findings.append(Finding("monitor", key, what, case))
+        if atag:
+            hist["alias:%s:%s" % (op, atag)] = hist.get("alias:%s:%s" % (op, atag), 0) + 1
+        for tag in clause_tags(c, res):
+            hist["clause:" + tag] = hist.get("clause:" + tag, 0) + 1
         nt = nontrivial(c, res)
         nontriv += nt
         tag = "%s:%s:%s:%s" % (op, c["kind"], c.get("itag", c.get("mode", c.get("form", "-"))),
